@@ -383,8 +383,32 @@ pub fn view_status(s: &Status) -> StatusView {
     StatusView { code: s.code() as i32, message: s.message().to_string(), details: s.details().to_vec(), meta: meta_multimap(s.metadata()) }
 }
 
+/// Ping-pong gate: request `i` is released only after the client has seen `min(i, replies)`
+/// response messages (an interactive caller that sends its next request after reading the reply).
+pub struct Gate {
+    seen: std::sync::atomic::AtomicUsize,
+    replies: usize,
+    waker: Mutex<Option<std::task::Waker>>,
+}
+impl Gate {
+    pub fn new(replies: usize) -> Arc<Gate> {
+        Arc::new(Gate { seen: std::sync::atomic::AtomicUsize::new(0), replies, waker: Mutex::new(None) })
+    }
+    pub fn bump(&self, to_end: bool) {
+        if to_end {
+            self.seen.store(usize::MAX / 2, Ordering::SeqCst);
+        } else {
+            self.seen.fetch_add(1, Ordering::SeqCst);
+        }
+        if let Some(w) = self.waker.lock().unwrap().take() {
+            w.wake();
+        }
+    }
+}
+
 /// A request stream that yields its items with scripted Pending polls in between.
 pub struct ReqStream {
+    pub gate: Option<Arc<Gate>>,
     items: std::vec::IntoIter<Msg>,
     pend: Vec<u8>,
     i: usize,
@@ -395,7 +419,7 @@ pub struct ReqStream {
 impl ReqStream {
     pub fn new(items: Vec<Msg>, pend: Vec<u8>, gaps_ms: Vec<u64>) -> Self {
         let left = pend.first().copied().unwrap_or(0);
-        ReqStream { items: items.into_iter(), pend, i: 0, left, gaps_ms, sleep: None }
+        ReqStream { gate: None, items: items.into_iter(), pend, i: 0, left, gaps_ms, sleep: None }
     }
 }
 impl Stream for ReqStream {
@@ -420,6 +444,14 @@ impl Stream for ReqStream {
             cx.waker().wake_by_ref();
             return Poll::Pending;
         }
+        if let Some(g) = &self.gate {
+            // no self-wake here: if the reply never comes this must show as a stall, not a spin
+            let mut w = g.waker.lock().unwrap();
+            if g.seen.load(Ordering::SeqCst) < self.i.min(g.replies) {
+                *w = Some(cx.waker().clone());
+                return Poll::Pending;
+            }
+        }
         self.i += 1;
         self.left = self.pend.get(self.i).copied().unwrap_or(0);
         Poll::Ready(self.items.next())
@@ -434,6 +466,8 @@ pub struct CallSpec {
     pub req_pend: Vec<u8>,
     pub req_gaps_ms: Vec<u64>,
     pub timeout: Option<std::time::Duration>,
+    /// bidi only: send request i only after min(i, number of scripted replies) replies were read
+    pub pingpong: Option<usize>,
 }
 
 fn mk_request<T>(body: T, spec: &CallSpec) -> Request<T> {
@@ -446,21 +480,30 @@ fn mk_request<T>(body: T, spec: &CallSpec) -> Request<T> {
     r
 }
 
-async fn drain_stream(view: &mut ClientView, mut st: Streaming<Msg>, events: Option<(&EventLog, &str)>) {
+async fn drain_stream(view: &mut ClientView, mut st: Streaming<Msg>, events: Option<(&EventLog, &str)>, gate: Option<Arc<Gate>>) {
     loop {
         match st.message().await {
             Ok(Some(m)) => {
                 if let Some((ev, id)) = events {
                     ev.push("client_msg", id, format!("{}", view.msgs.len()));
                 }
-                view.msgs.push(m)
+                view.msgs.push(m);
+                if let Some(g) = &gate {
+                    g.bump(false);
+                }
             }
             Ok(None) => {
                 view.end = Some(Ok(()));
+                if let Some(g) = &gate {
+                    g.bump(true);
+                }
                 break;
             }
             Err(s) => {
                 view.end = Some(Err(view_status(&s)));
+                if let Some(g) = &gate {
+                    g.bump(true);
+                }
                 break;
             }
         }
@@ -520,12 +563,14 @@ where
                 if let Some(ev) = events {
                     ev.push("client_headers", &spec.id, "");
                 }
-                drain_stream(&mut view, r.into_inner(), events.map(|e| (e, spec.id.as_str()))).await;
+                drain_stream(&mut view, r.into_inner(), events.map(|e| (e, spec.id.as_str())), None).await;
             }
             Err(s) => view.call_err = Some(view_status(&s)),
         },
         Shape::Bidi => {
-            let rs = ReqStream::new(spec.req_msgs.clone(), spec.req_pend.clone(), spec.req_gaps_ms.clone());
+            let mut rs = ReqStream::new(spec.req_msgs.clone(), spec.req_pend.clone(), spec.req_gaps_ms.clone());
+            let gate = spec.pingpong.map(Gate::new);
+            rs.gate = gate.clone();
             match client.bidi(mk_request(rs, spec)).await {
                 Ok(r) => {
                     match meta_multimap(r.metadata()) {
@@ -535,7 +580,7 @@ where
                     if let Some(ev) = events {
                         ev.push("client_headers", &spec.id, "");
                     }
-                    drain_stream(&mut view, r.into_inner(), events.map(|e| (e, spec.id.as_str()))).await;
+                    drain_stream(&mut view, r.into_inner(), events.map(|e| (e, spec.id.as_str())), gate.clone()).await;
                 }
                 Err(s) => view.call_err = Some(view_status(&s)),
             }
